@@ -2,9 +2,11 @@
 
 pub mod c06;
 pub mod c07;
+pub mod c08;
 pub mod lin;
 pub mod schedprops;
 pub mod c10;
+pub mod concprogs;
 pub mod c14;
 pub mod c16;
 pub mod crashprops;
@@ -145,6 +147,19 @@ pub fn run_check(prop: &str, tier: &str) -> i32 {
             schedprops::run_programs(progs, bound, 3000, budget, &schedprops::judge_linearizable, None, &["C07", "C20"], &mut report);
             report.set("explanation", "deviation-bounded depth-first exploration of all schedules of each program under a controlled scheduler over real threads (one runs at a time, switches only at hook points); every complete execution's call/return history is checked by brute-force linearization against the LWW model with the two permitted refusals");
         }
+        "C08" => {
+            let bound = if thorough { 2 } else { 1 };
+            let progs = c08::programs(thorough);
+            schedprops::run_programs(progs, bound, 4000, budget, &schedprops::judge_linearizable, None, &["C08", "C07", "C14", "C20"], &mut report);
+            report.set("explanation", "controlled scheduler over application threads, the flush worker and the periodic coordinator of a real persistent store on 3-6 block devices; every read result is checked by linearization against the model (StaleExtent permitted only under a concurrent rewrite) and an I/O monitor fails the run if a device write intersects an extent a reader still holds");
+        }
+        "C18" => {
+            let bound = if thorough { 2 } else { 1 };
+            let mut progs = c08::contention_programs(thorough);
+            progs.extend(c08::programs(false).into_iter().step_by(5));
+            schedprops::run_programs(progs, bound, 4000, budget, &schedprops::judge_linearizable, None, &["C18"], &mut report);
+            report.set("explanation", "termination oracle: an execution must end with every thread finished within the decision horizon; 'no enabled thread' is a deadlock, the horizon a livelock; contention programs cover concurrent flush callers, flush vs periodic tick, full device, reader held inside a read");
+        }
         "C10" => {
             let deep = suites::layout_suites(thorough);
             let plan = crashprops::CrashPlan { crash: false, layout_tag: "C10", nest: 0, reopen_cycles: 0, sector_tear: false, layout: true };
@@ -155,11 +170,13 @@ pub fn run_check(prop: &str, tier: &str) -> i32 {
         "C14" => {
             c14::run(tier, &mut report);
             let s = pick(&["mem-ttl", "mem-core", "disk-v3", "disk-v3-ttl", "focus-v3-ttl"], thorough);
-            seq_check(prop, tier, s, &["C14"], budget * 0.5, &mut report);
+            seq_check(prop, tier, s, &["C14"], budget * 0.3, &mut report);
+            let bound = if thorough { 3 } else { 2 };
+            schedprops::run_programs(concprogs::scan_programs(thorough), bound, 3000, budget * 0.4, &schedprops::judge_linearizable, None, &["C14"], &mut report);
         }
         "C16" => {
             // (1) cache FSM, (2) cache on/off differential over persistent SEQ suites
-            c16::run_fsm(tier, budget * 0.4, &mut report);
+            c16::run_fsm(tier, budget * 0.3, &mut report);
             let mut s = pick(&["focus-v3", "focus-v3-ttl", "disk-v3", "disk-v3-ttl", "edge-v3"], thorough);
             for suite in s.iter_mut() {
                 let mut off = suite.cfg;
@@ -167,11 +184,19 @@ pub fn run_check(prop: &str, tier: &str) -> i32 {
                 suite.shadow = Some(off);
                 suite.name = format!("{}~nocache", suite.name);
             }
-            seq_check(prop, tier, s, &["C16", "C01", "C11", "C14"], budget * 0.6, &mut report);
+            seq_check(prop, tier, s, &["C16", "C01", "C11", "C14"], budget * 0.4, &mut report);
+            schedprops::run_programs(concprogs::warm_programs(false), 1, 4000, budget * 0.3, &schedprops::judge_linearizable, None, &["C16", "C07", "C08", "C14"], &mut report);
         }
         "C11" => {
             let s = pick(&["mem-ttl", "disk-v3-ttl", "disk-v1-ttl", "focus-v3-ttl", "focus-v2-ttl", "focus-v3-ttl-nocache", "ts-mem"], thorough);
-            seq_check(prop, tier, s, &["C11", "C01", "C14"], budget, &mut report);
+            seq_check(prop, tier, s, &["C11", "C01", "C14"], budget * 0.5, &mut report);
+            // sweeper vs writers renewing / replacing the key, all interleavings within the bound
+            let bound = if thorough { 3 } else { 2 };
+            schedprops::run_programs(concprogs::sweep_programs(thorough), bound, 3000, budget * 0.25, &schedprops::judge_linearizable, None, &["C11", "C07", "C13", "C14"], &mut report);
+            // crash between the TTL write and its flush, reopened with TTL on
+            let cs: Vec<Suite> = suites::crash_suites(thorough).into_iter().filter(|s| s.name == "crash-ttl-v3").collect();
+            let plan = crashprops::CrashPlan { crash: true, layout_tag: "C10", nest: 0, reopen_cycles: 0, sector_tear: false, layout: false };
+            crashprops::crash_check(prop, cs, &["C11", "C02", "C03"], plan, budget * 0.25, &mut report);
         }
         "C12" => {
             let s = pick(&["ts-mem", "ts-mem-limit", "ts-disk-v1", "ts-disk-v2", "ts-disk-v3", "mem-limit", "mem-core", "disk-limit"], thorough);
@@ -183,7 +208,29 @@ pub fn run_check(prop: &str, tier: &str) -> i32 {
             // accounting right after recovery from every crash image
             let cs: Vec<Suite> = suites::crash_suites(thorough).into_iter().filter(|s| ["crash-core-v3", "crash-small-v3", "crash-ttl-v3"].contains(&s.name.as_str())).collect();
             let plan = crashprops::CrashPlan { crash: true, layout_tag: "C10", nest: 0, reopen_cycles: 0, sector_tear: false, layout: false };
-            crashprops::crash_check(prop, cs, &["C13"], plan, budget * 0.4, &mut report);
+            crashprops::crash_check(prop, cs, &["C13"], plan, budget * 0.2, &mut report);
+            // concurrent creators / growers / deleters against a limit admitting only some
+            let bound = if thorough { 3 } else { 2 };
+            let check: schedprops::DecisionCheck = std::sync::Arc::new(|store: &std::sync::Arc<feoxdb::FeoxStore>| {
+                let usage = store.memory_usage();
+                let limit = store.stats().memory_usage; // placeholder, replaced below
+                let _ = limit;
+                None::<String>.or_else(|| if usage > (usize::MAX >> 1) { Some(format!("C13: memory_usage() wrapped below zero ({usage})")) } else { None })
+            });
+            let progs = concprogs::limit_programs(thorough);
+            let limit = progs[0].cfg.max_memory.unwrap();
+            let check_limit: schedprops::DecisionCheck = std::sync::Arc::new(move |store: &std::sync::Arc<feoxdb::FeoxStore>| {
+                let usage = store.memory_usage();
+                if usage > limit {
+                    Some(format!("C13: memory_usage() = {usage} exceeds the limit {limit} at a scheduling point"))
+                } else {
+                    None
+                }
+            });
+            schedprops::run_programs(progs, bound, 3000, budget * 0.1, &schedprops::judge_linearizable, Some(check_limit), &["C13"], &mut report);
+            let mut pairs = c07::programs(Cfg::memory(), false);
+            pairs.retain(|p| p.name.starts_with("pair-"));
+            schedprops::run_programs(pairs, bound, 3000, budget * 0.1, &schedprops::judge_linearizable, Some(check), &["C13"], &mut report);
         }
         _ => {
             eprintln!("unknown property {prop}");
@@ -210,6 +257,48 @@ pub fn replay(path: &str) -> i32 {
             }
             code
         }
+        Some("sched") => {
+            let prop = v["property"].as_str().unwrap_or("");
+            let name = r["program"].as_str().unwrap_or("");
+            let schedule: Vec<usize> = r["schedule"].as_array().map(|a| a.iter().map(|x| x.as_u64().unwrap() as usize).collect()).unwrap_or_default();
+            let Some(p) = all_sched_programs().into_iter().find(|p| p.name == name) else {
+                eprintln!("program {name} not found");
+                return 2;
+            };
+            println!("program {}\nschedule {:?}", p.describe(), schedule);
+            let mut code = 0;
+            for round in 0..2 {
+                let ex = schedprops::execute(&p, &schedule, 6000, None);
+                if let Some(m) = &ex.machinery {
+                    println!("MACHINERY {m}");
+                    return 2;
+                }
+                println!("--- replay {} outcome {:?}, {} decisions", round + 1, ex.outcome, ex.trace.len());
+                if round == 0 {
+                    for (i, d) in ex.trace.iter().enumerate() {
+                        println!("  decision {i}: run T{} of {:?}", d.chosen, d.at);
+                    }
+                    for rc in &ex.recs {
+                        println!("  [{}..{}] T{} {} -> {} (ts {})", rc.invoke, rc.response, rc.thread, p.tables.describe(&rc.op), rc.out.brief(), rc.ts);
+                    }
+                    for (o, out) in &ex.finals {
+                        println!("  final {} -> {}", p.tables.describe(o), out.brief());
+                    }
+                }
+                let msgs = match &ex.outcome {
+                    crate::sched::Outcome::Completed => schedprops::judge_linearizable(&p, &ex),
+                    other => vec![format!("C18: {other:?}")],
+                };
+                for m in &msgs {
+                    println!("  violation: {m}");
+                }
+                if !msgs.is_empty() {
+                    code = 1;
+                }
+            }
+            let _ = prop;
+            code
+        }
         Some(engine) => {
             // Component explorers are deterministic and fast: re-run the check and
             // show the violation again.
@@ -222,6 +311,23 @@ pub fn replay(path: &str) -> i32 {
             2
         }
     }
+}
+
+pub fn all_sched_programs() -> Vec<schedprops::Program> {
+    let mut v = Vec::new();
+    for thorough in [false, true] {
+        v.extend(c07::programs(Cfg::memory(), thorough));
+        let mut disk = Cfg::persistent(24);
+        disk.cache = true;
+        v.extend(c07::programs(disk, thorough));
+        v.extend(c08::programs(thorough));
+        v.extend(c08::contention_programs(thorough));
+        v.extend(concprogs::scan_programs(thorough));
+        v.extend(concprogs::limit_programs(thorough));
+        v.extend(concprogs::sweep_programs(thorough));
+        v.extend(concprogs::warm_programs(thorough));
+    }
+    v
 }
 
 pub fn run_one_path(suite: &str, hist: &[u16], thorough: bool) -> i32 {
